@@ -303,6 +303,11 @@ def run_unit(res, cases):
                 res.fail(case, f"colour table unreadable: {e}")
                 res.case(case, None)
                 continue
+            neg = [(q, i) for q, i in zip(c["queries"], o["utils"]) if isinstance(i, int) and i < 0]
+            if neg:
+                res.fail(case, f"negative colour index: {neg[:3]} (an index refers to a position of the colour table)")
+                res.case(case, None)
+                continue
             uses = []
             for q, i in zip(c["queries"], o["utils"]):
                 member = c["used"] is None or q in c["used"]
@@ -809,6 +814,8 @@ def doc_requests(case, ob):
                 if v:
                     uses.append([v, ""])
                     owners.append((t, nm + " on untagged text", v))
+    # a negative index never refers to an entry: present it to the Lean checker as an index beyond every table
+    uses = [[u[0] if u[0] >= 0 else 10 ** 6, u[1]] for u in uses]
     oracle = dict(op="c12_check", has_table=ob["has_table"], entries=ob["entries"], uses=uses, fonts=ob["fonts"],
                   font_uses=fuses)
     return model, oracle, dict(owners=owners, fowners=fowners, seen=seen, uses=uses, fuses=fuses)
